@@ -930,6 +930,10 @@ fn robust(c: &Case, o: &RunOut) -> bool {
 
 pub fn exec(line: &str, rec: &mut Recorder) {
     let t: Vec<&str> = line.split_whitespace().collect();
+    if t.first() == Some(&"real") {
+        exec_real(line, &t, rec);
+        return;
+    }
     let Some(c) = parse_case(&t) else {
         rec.case(line.to_string(), "bad-op".into());
         rec.stat("bad-op");
@@ -1018,6 +1022,106 @@ fn finish_case(line: &str, c: &Case, r: Result<Result<RunOut, String>, String>, 
         rec.nontrivial(idx);
     }
     oracle(c, &o, valid, idx, rec);
+}
+
+// ------------------------------------------------------------------------------------------------
+// replay of the deadline clause on the unmodified stack: real UDP sockets on loopback, the real
+// `TokioRuntimeProvider`, `UdpClientStream` with its own `options.timeout`
+// ------------------------------------------------------------------------------------------------
+
+/// `real <T ms> <d ms>`: server 1 (127.0.0.1, not trusted for negative answers) answers NXDOMAIN after
+/// `d` ms, server 2 (127.0.0.2) receives the query and never answers.  No model side.
+fn exec_real(line: &str, t: &[&str], rec: &mut Recorder) {
+    let (Some(t_ms), Some(d_ms)) = (t.get(1).and_then(|x| x.parse::<u64>().ok()), t.get(2).and_then(|x| x.parse::<u64>().ok())) else {
+        rec.case(line.to_string(), "bad-op".into());
+        return;
+    };
+    if t.len() != 3 || t_ms == 0 || t_ms > 5000 || d_ms > 5000 {
+        rec.case(line.to_string(), "bad-op".into());
+        return;
+    }
+    rec.impl_only += 1;
+    rec.stat("mode_R_real_sockets");
+    let r = catch(|| real_run(t_ms, d_ms));
+    let idx = rec.case(line.to_string(), "~".into());
+    match r {
+        Ok(Ok((class, elapsed_ms, s2_got_query))) => {
+            rec.stat(&format!("real_result_{}", class.replace(':', "_")));
+            rec.nontrivial(idx);
+            if !(class.starts_with("ans:") || class.starts_with("err:")) {
+                rec.fail(idx, format!("lookup completed with neither an answer nor an error: {class}"), "");
+            }
+            if elapsed_ms > t_ms + TOL_US / 1000 {
+                let class_f = if s2_got_query && d_ms < t_ms { "deadline-overrun-by-last-round" } else { "" };
+                rec.fail(
+                    idx,
+                    format!(
+                        "real sockets: lookup completed {elapsed_ms} ms after it started (result {class}), configured timeout {t_ms} ms: server 1 answered an untrusted NXDOMAIN after {d_ms} ms, server 2 was then queried and waited for until its own {t_ms} ms timeout"
+                    ),
+                    class_f,
+                );
+            }
+        }
+        Ok(Err(e)) => {
+            // no loopback sockets in this sandbox: nothing was observed
+            rec.stat("real_sockets_unavailable");
+            let _ = e;
+        }
+        Err(p) => rec.fail(idx, format!("the pool panicked: {p}"), ""),
+    }
+}
+
+fn real_run(t_ms: u64, d_ms: u64) -> Result<(String, u64, bool), String> {
+    let rt = tokio::runtime::Builder::new_current_thread().enable_all().build().map_err(|e| e.to_string())?;
+    rt.block_on(async move {
+        let s1 = tokio::net::UdpSocket::bind("127.0.0.1:0").await.map_err(|e| e.to_string())?;
+        let s2 = tokio::net::UdpSocket::bind("127.0.0.2:0").await.map_err(|e| e.to_string())?;
+        let (p1, p2) = (s1.local_addr().map_err(|e| e.to_string())?.port(), s2.local_addr().map_err(|e| e.to_string())?.port());
+        let got2 = Arc::new(AtomicBool::new(false));
+        let g2 = got2.clone();
+        tokio::spawn(async move {
+            let mut buf = [0u8; 1500];
+            while let Ok((_n, _from)) = s2.recv_from(&mut buf).await {
+                g2.store(true, AO::SeqCst);
+            }
+        });
+        tokio::spawn(async move {
+            let mut buf = [0u8; 1500];
+            while let Ok((n, from)) = s1.recv_from(&mut buf).await {
+                let Ok(q) = Message::from_vec(&buf[..n]) else { continue };
+                let mut m = Message::query();
+                m.metadata.id = q.metadata.id;
+                if let Some(qq) = q.queries.first() {
+                    m.add_query(qq.clone());
+                }
+                let mut m = m.into_response();
+                m.metadata.response_code = ResponseCode::NXDomain;
+                tokio::time::sleep(Duration::from_millis(d_ms)).await;
+                if let Ok(bytes) = m.to_vec() {
+                    let _ = s1.send_to(&bytes, from).await;
+                }
+            }
+        });
+        let mut opts = ResolverOpts::default();
+        opts.timeout = Duration::from_millis(t_ms);
+        opts.num_concurrent_reqs = 1;
+        opts.server_ordering_strategy = ServerOrderingStrategy::UserProvidedOrder;
+        let mut c1 = ConnectionConfig::udp();
+        c1.port = p1;
+        let mut c2 = ConnectionConfig::udp();
+        c2.port = p2;
+        let servers = vec![
+            NameServerConfig::new(IpAddr::V4(Ipv4Addr::new(127, 0, 0, 1)), false, vec![c1]),
+            NameServerConfig::new(IpAddr::V4(Ipv4Addr::new(127, 0, 0, 2)), true, vec![c2]),
+        ];
+        let cx = Arc::new(PoolContext::new(opts, TlsConfig::new().map_err(|e| e.to_string())?));
+        let pool = NameServerPool::from_config(servers, cx, TokioRuntimeProvider::new());
+        let req = DnsRequest::from_query(Query::new(q_name(), RecordType::A), DnsRequestOptions::default());
+        let start = Instant::now();
+        let r = pool.send(req).first_answer().await;
+        let elapsed = start.elapsed().as_millis() as u64;
+        Ok((classify(&r), elapsed, got2.load(AO::SeqCst)))
+    })
 }
 
 // ------------------------------------------------------------------------------------------------
@@ -1509,4 +1613,6 @@ pub fn run(o: &Opts, rec: &mut Recorder) {
     enumerate_a(o, rec);
     random_a(o, rec);
     run_paced(gen_b(o), rec);
+    exec("real 300 240", rec);
+    exec("real 300 60", rec);
 }
